@@ -311,6 +311,8 @@ pub fn run_case(case: &ModelCase, wroot: &Path, flavour: Flavour, stats: &mut St
     None
   };
   let mut root = wroot.join("data.bak");
+  let mut used_roots: BTreeSet<String> = BTreeSet::new();
+  used_roots.insert("data.bak".to_string());
   let mut generation = 0usize;
   let mut relocated = false;
   let mut original_listing: Option<(PathBuf, BTreeMap<PathBuf, Vec<u8>>)> = None;
@@ -359,7 +361,11 @@ pub fn run_case(case: &ModelCase, wroot: &Path, flavour: Flavour, stats: &mut St
         2 => format!("{}2", cur),
         _ => format!("r{}", generation),
       };
-      let name = if name.is_empty() || name == cur { format!("r{}", generation) } else { name };
+      let mut name = if name.is_empty() || name == cur { format!("r{}", generation) } else { name };
+      // never reuse the name of an earlier root (its files may still be there)
+      while !used_roots.insert(name.clone()) {
+        name = format!("{}n{}", name, generation);
+      }
       let newroot = wroot.join(name);
       copy_tree(fs, &root, &newroot);
       match original {
